@@ -59,12 +59,23 @@ fn evp_check(rep: &mut Report, e: &Entry, id: &str, inst: &Inst, key: &[u8], dat
 }
 
 pub fn run(ctx: &Ctx) -> Report {
-    let mut rep = Report::new("kat");
+    run_selected(ctx, "kat", |_| true, true)
+}
+
+/// C12: every construction route of the AES and Kuznyechik types (Enc-only, Dec-only,
+/// combined, converted by value / by reference, cloned, sources dropped before use) and the
+/// clone of every other Clone type must compute the reference function for the key.
+pub fn run_convert(ctx: &Ctx) -> Report {
+    run_selected(ctx, "convert", |e| e.family == "aes" || e.family == "kuznyechik" || e.route == "clone", false)
+}
+
+fn run_selected(ctx: &Ctx, name: &str, select: fn(&Entry) -> bool, extras: bool) -> Report {
+    let mut rep = Report::new(name);
     let es = entries();
     let nkeys = ctx.budget(400, 30_000, 2);
     let have_ossl = ossl::available();
     rep.extra.insert("libcrypto".into(), J::B(have_ossl));
-    for e in es.iter().filter(|e| ctx.wants(e)) {
+    for e in es.iter().filter(|e| ctx.wants(e) && select(e)) {
         let id = e.id();
         let mut rng = ctx.rng(&format!("kat:{}", id));
         let mut no_ref = 0;
@@ -140,10 +151,15 @@ pub fn run(ctx: &Ctx) -> Report {
         if no_ref > 0 {
             rep.inconclusive.push(format!("no reference model answer for {} ({} keys)", id, no_ref));
         }
-        walking_bits(ctx, &mut rep, e, &id);
+        if extras {
+            walking_bits(ctx, &mut rep, e, &id);
+        }
+        rep.bump(&id, &format!("route:{}", e.route), 1);
     }
-    rc2_grid(ctx, &mut rep);
-    relations(ctx, &mut rep);
+    if extras {
+        rc2_grid(ctx, &mut rep);
+        relations(ctx, &mut rep);
+    }
     rep
 }
 
